@@ -37,22 +37,60 @@ class Z3Ctx:
     def expr(self, p):
         return poly_to_z3(self.alg, p, self.zv)
 
-    def base_constraints(self, extra_facts=(), without_inverses=False):
+    def gens_of(self, polys):
+        names = list(self.alg.gen.keys())
+        out = set()
+        for p in polys:
+            for mon in p:
+                for i, e in enumerate(mon):
+                    if e:
+                        out.add(names[i])
+        return out
+
+    def base_constraints(self, extra_facts=(), without_inverses=False, only_gens=None):
         """without_inverses: drop the defining relations d*I = 1 of inverse generators (they presuppose
         d != 0, which is exactly what a SAFE query must not assume)"""
         cs = []
         inv_names = [n for n, (a, r) in self.alg.gen_atom.items() if a.kind == "inv"]
-        for r in self.alg.relations:
+        if only_gens is not None:
+            # relevance filter: keep a relation only if all its generators are already relevant
+            # (closure: atoms defined over relevant generators become relevant themselves)
+            keep = set(only_gens)
+            changed = True
+            rels = list(self.alg.relations)
+            chosen = []
+            while changed:
+                changed = False
+                for r in rels:
+                    if any(r is c_ for c_ in chosen):
+                        continue
+                    g = self.gens_of([r])
+                    atoms = set(n for n in g if n in self.alg.gen_atom)
+                    if g - atoms <= keep and (atoms & keep or not atoms):
+                        chosen.append(r)
+                        if not g <= keep:
+                            keep |= g
+                            changed = True
+            use = chosen
+        else:
+            use = self.alg.relations
+        for r in use:
             if without_inverses and self.alg.uses_gens(r, inv_names):
                 continue
             cs.append(self.expr(r) == 0)
         for n in self.alg.nonneg:
+            if only_gens is not None and n not in keep:
+                continue
             cs.append(self.zv(n) >= 0)
         for n, f in self.alg.sign.items():
+            if only_gens is not None and n not in keep:
+                continue
             v = self.zv(n)
             cs.append({"pos": v > 0, "nonneg": v >= 0, "neg": v < 0, "nonpos": v <= 0}[f])
         # trig generators are bounded
         for (sn, cn) in self.alg.trig_gens:
+            if only_gens is not None and sn not in keep and cn not in keep:
+                continue
             cs.append(self.zv(sn) >= -1)
             cs.append(self.zv(sn) <= 1)
             cs.append(self.zv(cn) >= -1)
@@ -60,6 +98,8 @@ class Z3Ctx:
         # A-TAYLOR enclosures valid for every real argument b:
         #   b >= 0: b - b^3/6 <= sin b <= b ;  b <= 0: b <= sin b <= b - b^3/6 ;  1 - b^2/2 <= cos b <= 1 - b^2/2 + b^4/24
         for (sn, cn) in self.alg.trig_gens:
+            if only_gens is not None and sn not in keep and cn not in keep:
+                continue
             b = self.expr(self.alg.gen_atom[sn][0].args[0])
             S, Cc = self.zv(sn), self.zv(cn)
             cs.append(z3.Implies(b >= 0, z3.And(S <= b, S >= b - b * b * b / 6)))
@@ -67,6 +107,8 @@ class Z3Ctx:
             cs.append(Cc >= 1 - b * b / 2)
             cs.append(Cc <= 1 - b * b / 2 + b * b * b * b / 24)
         for name, (atom, role) in self.alg.gen_atom.items():
+            if only_gens is not None and name not in keep:
+                continue
             if atom.kind == "atan2":
                 # range (-pi, pi] with rational enclosures of pi
                 cs.append(self.zv(name) > -z3.RealVal("3.1415926535897933"))
